@@ -35,6 +35,11 @@ JoinFrom(parts, i, acc) ==
          ELSE JoinFrom(parts, i + 1, Append(acc, parts[i]))
 CanonLoc(loc) == [strand |-> loc.strand, parts |-> JoinFrom(Fwd(loc), 1, <<>>)]
 SameLoc(a, b) == a = b \/ CanonLoc(a) = CanonLoc(b)
+(* an area that covers a whole ring has no first base: `[s:n) + [0:s)` and `[0:n)` are the same area (offset_location leaves a
+   location that covers the entire record as it is, "since it'll be the same"); used for areas in region extracts only *)
+WCanon(loc) == LET c == CanonLoc(loc)
+               IN  IF Len(c.parts) = 2 /\ c.parts[2][1] = 0 /\ c.parts[2][2] = c.parts[1][1]
+                   THEN [strand |-> c.strand, parts |-> << <<0, c.parts[1][2]>> >>] ELSE c
 CanonLocs(q) == [i \in DOMAIN q |-> CanonLoc(q[i])]
 
 (* --- C10: a round trip is a stuttering step on the abstract record ------------------------------------- *)
@@ -117,13 +122,13 @@ XFeat(L, rloc, f, withDna) == [type |-> f.type, pay |-> f.xpay, loc |-> CanonLoc
                                dna |-> IF withDna THEN f.dna ELSE ""]
 OFeat(f, withDna) == [type |-> f.type, pay |-> f.xpay, loc |-> CanonLoc(f.loc), aux |-> CanonLocs(f.aux),
                       dna |-> IF withDna THEN f.dna ELSE ""]
-XProto(L, rloc, p) == [pay |-> p.xpay, loc |-> CanonLoc(ShiftIn(L, rloc, p.loc)), core |-> CanonLoc(ShiftIn(L, rloc, p.core))]
-OProto(p) == [pay |-> p.xpay, loc |-> CanonLoc(p.loc), core |-> CanonLoc(p.core)]
-XSub(L, rloc, x) == [pay |-> x.xpay, loc |-> CanonLoc(ShiftIn(L, rloc, x.loc))]
-OSub(x) == [pay |-> x.xpay, loc |-> CanonLoc(x.loc)]
-XCand(rec, rloc, c) == [pay |-> c.xpay, loc |-> CanonLoc(ShiftIn(rec.L, rloc, c.loc)),
+XProto(L, rloc, p) == [pay |-> p.xpay, loc |-> WCanon(ShiftIn(L, rloc, p.loc)), core |-> CanonLoc(ShiftIn(L, rloc, p.core))]
+OProto(p) == [pay |-> p.xpay, loc |-> WCanon(p.loc), core |-> CanonLoc(p.core)]
+XSub(L, rloc, x) == [pay |-> x.xpay, loc |-> WCanon(ShiftIn(L, rloc, x.loc))]
+OSub(x) == [pay |-> x.xpay, loc |-> WCanon(x.loc)]
+XCand(rec, rloc, c) == [pay |-> c.xpay, loc |-> WCanon(ShiftIn(rec.L, rloc, c.loc)),
                         members |-> {XProto(rec.L, rloc, rec.protos[k]) : k \in Rng(c.protos)}]
-OCand(rec, c) == [pay |-> c.xpay, loc |-> CanonLoc(c.loc),
+OCand(rec, c) == [pay |-> c.xpay, loc |-> WCanon(c.loc),
                   members |-> {OProto(rec.protos[k]) : k \in Rng(c.protos) \cap DOMAIN rec.protos}]
 
 (* what the extract of region number r of rec has to contain *)
@@ -186,7 +191,7 @@ ExtractFailed(parent, pseq, r, ex) ==
                     THEN {"candidates_keep_their_protoclusters"} ELSE {})
                    \cup (IF Len(got.regions) # 1 THEN {"exactly_one_region"}
                          ELSE LET g == got.regions[1] IN
-                              (IF ~SameLoc(g.loc, Simple(0, want.n, 1)) THEN {"region_spans_the_extract"} ELSE {})
+                              (IF WCanon(g.loc) # CanonLoc(Simple(0, want.n, 1)) THEN {"region_spans_the_extract"} ELSE {})
                               \cup (IF g.xpay # want.regionPay THEN {"region_keeps_its_products_and_rules"} ELSE {})
                               \cup (IF {OCand(got, got.cands[k]) : k \in Rng(g.cands)} # want.regionCands
                                        \/ {OSub(got.subs[k]) : k \in Rng(g.subs)} # want.regionSubs
